@@ -162,7 +162,8 @@ def np_st(draw, names, arms, prob_ok=True, defaults_ok=False, metrics=None):
             p = {}
         return [name, p]
     if name == "LSHNearest":
-        p = {"n_dimensions": draw(st.integers(1, 5)), "n_tables": draw(st.integers(1, 3))}
+        p = {"n_dimensions": draw(st.sampled_from([1, 2, 3, 4, 5, 1, 2, 3, 4, 5, 1, 2, 3, 4, 5, 8, 33, 54, 60])),
+             "n_tables": draw(st.integers(1, 3))}
         if prob_ok and draw(st.integers(0, 3)) == 0:
             p["no_nhood_prob_of_arm"] = draw(prob_list_st(len(arms)))
         if defaults_ok and draw(st.integers(0, 4)) == 0:
